@@ -3,12 +3,13 @@ CONSTANTS
   Stacks <- StacksAll
   Outcomes <- Out13
   TagOps <- TagOpsAll
-  Times = {"1", "2"}
+  Times = {"1", "2", "none"}
   MaxCalls = 24
   MaxTests = 4
   MaxRuns = 2
   MaxTagOps = 5
   MaxTimes = 4
+  MaxIds = 9
   AllowStop = TRUE
   AllowSetFF = FALSE
   AllowSkipNoStart = FALSE
